@@ -50,6 +50,13 @@ def _geoms(tier):
     # "fixed" VHDX: LeaveBlockAllocated set, blocks still placed / stated arbitrarily (the flag does not change how to read)
     q.append(dict(bs=MB, sec=512, W=3, cut=512, at=0, total=None, seqs=[7, 6], regions=["meta", "bat"], meta_mb=2, bat_mb=3,
                   leave=True))
+    # blocks without data whose BAT entries still carry a file offset (reserved / stale after a trim), pointing directly behind
+    # the previous block's data
+    q.append(dict(bs=MB, sec=512, W=3, cut=512, at=0, total=None, seqs=[7, 6], regions=["meta", "bat"], meta_mb=2, bat_mb=3,
+                  stale=True))
+    # 4096-byte sectors, size an exact multiple of the block size (the last sector is the last sector of the last block)
+    q.append(dict(bs=MB, sec=4096, W=3, cut=0, at=0, total=None, seqs=[7, 6], regions=["meta", "bat"], meta_mb=2, bat_mb=3,
+                  alpha="small"))
     # one request over more than 128 MiB of a single absent 256 MiB block
     q.append(dict(bs=256 * MB, sec=512, W=3, cut=0, at=0, total=None, seqs=[7, 6], regions=["meta", "bat"], meta_mb=2, bat_mb=3,
                   alpha="small", longrun=True))
@@ -157,7 +164,8 @@ def run_case(case, ctx):
     size = total * bs - g["cut"]
     buf = bootstrap.bufsize()
     img = B.build(states, slots, bs, sec, size, seqs=tuple(g["seqs"]), regions=tuple(g["regions"]), meta_mb=g["meta_mb"],
-                  bat_mb=g["bat_mb"], total_blocks=total, window_at=at, leave_allocated=bool(g.get("leave")))
+                  bat_mb=g["bat_mb"], total_blocks=total, window_at=at, leave_allocated=bool(g.get("leave")),
+                  stale_offsets=bool(g.get("stale")))
     disk = B.model(states, bs, sec, size, total_blocks=total, window_at=at)
     ctx.model([g, states, slots])
     ctx.executions += 1
